@@ -64,6 +64,11 @@ def steady_zoo():
                     ("A = A[-1]*exp(ga) * exp(e)", "Y = A * n^0.5", "n = 0.3*n[-1] + 0.7"),
                     dict(ga=0.02), dict(A=2.0, Y=2.0, n=1.0), False, logvars=("A", "Y"), shocks=("e",), fix_level=("A",),
                     assign_extra={"A": (2.0, 1.02), "Y": (2.0, 1.02)}))
+    # a growing variable solved in an earlier block enters a later block with a lag (the dating of the background steady array matters)
+    Z.append(SModel("growth_lag", ("A", "Y", "n"),
+                    ("A = A[-1]*exp(ga) * exp(e)", "Y = A[-1] * n^0.5", "n = 0.3*n[-1] + 0.7"),
+                    dict(ga=0.02), dict(A=2.0, Y=2.0, n=1.0), False, logvars=("A", "Y"), shocks=("e",), fix_level=("A",),
+                    assign_extra={"A": (2.0, 1.02), "Y": (2.0, 1.02)}))
     Z.append(SModel("ur_drift", ("l", "g"),
                     ("l = l[-1] + g + e", "g = 0.5*g[-1] + 0.1"),
                     dict(), dict(l=1.0, g=0.1), False, shocks=("e",), fix_level=("l",), assign_extra={"l": (1.0, 0.2)}))
@@ -253,7 +258,7 @@ def main(run):
         "_calculate_steady_incidence_matrix,_update_variant_with_final_guess}", "incidences.blazer.blaze (concrete incidence)", "simultaneous._variants.Variant.{create_steady_array,"
         "retrieve_*,update_*_from_array}", "plans.steady_plans.SteadyPlan (fix_level, exogenize/endogenize)", "reached through Simultaneous.solve_steady / get_steady_levels / get_steady_changes",
     ]
-    run.bounds["structures"] = ("steady zoo of 5 nonlinear models (stationary with log-variables and real exponents; stationary with a !! steady variant; "
+    run.bounds["structures"] = ("steady zoo of 6 nonlinear models (stationary with log-variables and real exponents; stationary with a !! steady variant; "
                                 "exogenized variable/endogenized parameter; balanced growth with log-variables; unit root with drift), flat in {T,F} as the model "
                                 "requires, split_into_blocks in {T,F}, steady plans fixing a level / swapping; parameters at fixed values")
     run.bounds["values"] = "the solver's answer g is an arbitrary real vector satisfying ||f(g)||inf < func_tolerance; exact arithmetic"
